@@ -1,7 +1,66 @@
 """C12 check configuration (data only)."""
 from propbase import KERNEL, HARNESS
+import os
+
+# API surface of the types C12 is about (translate/image_api.py lists it from src/image.rs on every run; an item that is
+# not in this table, or an item of this table that is gone, is reported as a broken obligation).  Status:
+#   history  called by the operation programs of harness/src/c12.rs on ONE handler inside multi-step histories
+#   layout   data layout the models are written against
+#   out      not part of the sixel output; the property that covers it, or the reason it is left out
+_H, _L, _O = 'history', 'layout', 'out'
+API = {
+ 'Image derives Clone': (_H, 'draws of clones (ctor 1) and of the uncropped parent next to its crops'),
+ 'Image.data: Arc<[RGBA]>': (_L, 'one shared buffer under all crops of a parent (crop siblings, both orders)'),
+ 'Image.shape: Shape': (_L, 'C07 Shape model: C12_crop_reads_view'),
+ 'Image::new': (_H, 'ctor 2'),
+ 'Image::from_parts': (_H, 'every parent image'),
+ 'Image::crop': (_H, 'crop siblings: parent + 2..3 views in order and in reverse order on one handler'),
+ 'Image::resize': (_O, 'resampling, no property'),
+ 'Image::size_cells': (_O, 'cell geometry (C01)'),
+ 'Image::quantize': (_H, 'inside every draw (C13 models)'),
+ 'Image::write_png': (_O, 'kitty path / png crate'),
+ 'Image::ascii_view': (_O, 'debug view'),
+ 'impl PartialEq for Image {eq}': (_O, 'C11'), 'impl Eq for Image {}': (_O, 'C11'),
+ 'impl PartialOrd for Image {partial_cmp}': (_O, 'C11'), 'impl Ord for Image {cmp}': (_O, 'C11'),
+ 'impl std::hash::Hash for Image {hash}': (_H, 'the cache key of every draw: same picture through 4 constructors must hit, '
+                                                'different views of one buffer must not'),
+ 'impl fmt::Debug for Image {fmt}': (_O, 'debug output'),
+ 'impl Surface for Image {shape, data}': (_H, 'read by every draw'),
+ 'impl From<SurfaceOwned<RGBA>> for Image {from}': (_H, 'ctor 3'),
+ 'impl View for Image {render, layout}': (_O, 'C01 renderer'),
+ "impl Deserialize<'de> for Image {deserialize}": (_O, 'serde format, no property'),
+ 'impl Serialize for Image {serialize}': (_O, 'serde format, no property'),
+ 'trait ImageHandler::kind': (_H, 'asserted Sixel in every case'),
+ 'trait ImageHandler::draw': (_H, 'every operation program'),
+ 'trait ImageHandler::erase': (_H, 'DNop: no bytes, cache untouched, next draw unchanged'),
+ 'trait ImageHandler::handle': (_H, 'DNop: no bytes, not handled, cache untouched'),
+ 'impl ImageHandler for Box {kind, draw, erase, handle}': (_H, 'boxed=true: the whole history through Box<SixelImageHandler>'),
+ 'SixelImageHandler.imgs: lru::LruCache<u64, Vec<u8>>': (_L, 'SixelCache.v (LRU list of (hash, bytes))'),
+ 'SixelImageHandler.size: usize': (_L, 'SixelCache.v; observed after every operation'),
+ 'SixelImageHandler.bg: Option<RGBA>': (_L, 'SIX bg; a twin handler with another background in between'),
+ 'SixelImageHandler::new': (_H, 'one per case + twin'),
+ 'SixelImageHandler::verif_set_cache_size [verif-hooks]': (_H, 'DSize (eviction histories)'),
+ 'SixelImageHandler::verif_cache_state [verif-hooks]': (_H, 'after every operation'),
+ 'impl ImageHandler for SixelImageHandler {kind, draw, erase, handle}': (_H, 'every operation program; draw also with a writer '
+                                                                            'that fails after k bytes (DFail), then drawn again'),
+}
+C12_TYPES = ['Image', 'SixelImageHandler', 'ImageHandler', 'Box']
+
+
+def _load_api():
+    import importlib.util
+    here = os.path.dirname(os.path.dirname(os.path.abspath(__file__)))
+    spec = importlib.util.spec_from_file_location('image_api', os.path.join(here, 'translate', 'image_api.py'))
+    mod = importlib.util.module_from_spec(spec)
+    spec.loader.exec_module(mod)
+    return mod
+
+
+_api_surface = _load_api().hook('C12', C12_TYPES, API)
+
 
 PROP = {'gen': ['sixel', 'octree'],
+ 'extra': [_api_surface],
  'coq_props': ['theories/Props/C12.vo'],
  'coq_corr': ['theories/Corr/C12Corr.vo'],
  'props_file': 'theories/Props/C12.v',
@@ -49,4 +108,4 @@ PROP = {'gen': ['sixel', 'octree'],
                  'C12_repeat_while_cached only: the encoded-image cache stays below its 128 MB eviction threshold (after an eviction identical '
                  'bytes are not guaranteed: C12_repeat_refuted_after_eviction)',
                  'C12_exact_upto_2p56px only: <= 256 colours at 0..100 resolution and fewer than 51200 pixels (no sub-sampling)',
-                 'io errors of the writer are outside the model']}
+                 'io errors of the writer are outside the theorems; the correspondence covers a writer that fails after k bytes (nothing cached on a miss, the next draw complete)']}
